@@ -541,14 +541,16 @@ def check_band_mask(ctx, rule="R5-band-mask-on-two-sided-grid"):
     for path, leaf in pv_leaves(F.body):
         lx = to_x(leaf)
         if lx is None: ok = False; break
-        inside = True
+        inside = True; tested = set()
         for cond, pol in path:
             d = getattr(cond, "lt", None)
             if d is None: ok = False; break
-            if d.eq(grid - X.var("fa")): inside = inside and (pol is False)          # not(|f| < fa)
-            elif d.eq(X.var("fb") - grid): inside = inside and (pol is False)        # not(fb < |f|)
+            if d.eq(grid - X.var("fa")): inside = inside and (pol is False); tested.add("fa")          # not(|f| < fa)
+            elif d.eq(X.var("fb") - grid): inside = inside and (pol is False); tested.add("fb")        # not(fb < |f|)
             else: ok = False; break
         if not ok: break
+        # a bin counts as inside only when both edges were tested on its path (a value that does not depend on an edge is not a band mask)
+        if inside and tested != {"fa", "fb"}: ok = False; break
         if not lx.eq(X.const(1) if inside else X.const(0)): ok = False; break
     if ok and okn == HOLDS:
         ctx.holds(rule, key, "unit magnitude exactly on the bins with fa <= |fftfreq| <= fb of the full two-sided grid (hence symmetric), zero elsewhere", where)
